@@ -65,6 +65,7 @@ def build(t, env):
 
 
 CUSTOM = {}
+CUSTOM_EXT_CLASSES = []
 CUSTOM_EXT = {
     "VerifObj": "extension-definition--0c9d6f0e-5a4b-4f7e-9d25-11a0c13c0001",
     "VerifObj2": "extension-definition--0c9d6f0e-5a4b-4f7e-9d25-11a0c13c0002",
@@ -103,13 +104,18 @@ def register_custom():
         pass
 
     CUSTOM.update({"VerifObj": VerifObj, "VerifObj2": VerifObj2, "VerifSco": VerifSco, "VerifPlain": VerifPlain})
+    import stix2.registry as R
+    for ext_id in CUSTOM_EXT.values():
+        CUSTOM_EXT_CLASSES.append(R.class_for_type(ext_id, "2.1", "extensions"))
 
 
 def cls_of(name):
     mod, cn = name.split(".")
     if mod == "custom":
         register_custom()
-        return CUSTOM[cn]
+        if cn in CUSTOM:
+            return CUSTOM[cn]
+        return [c for c in CUSTOM_EXT_CLASSES if c.__name__ == cn][0]
     m = getattr(stix2, mod)
     if hasattr(m, cn):
         return getattr(m, cn)
@@ -133,6 +139,8 @@ class WorldError(Exception):
 
 
 def cname(cls):
+    if cls.__module__ == "stix2.custom" and (cls in CUSTOM.values() or cls in CUSTOM_EXT_CLASSES):
+        return "custom." + cls.__name__          # the classes this worker registered itself
     parts = cls.__module__.split(".")
     if len(parts) < 2 or parts[0] != "stix2" or parts[1] not in ("v20", "v21"):
         raise WorldError("class outside stix2.v20/v21: %s.%s" % (cls.__module__, cls.__name__))
@@ -207,7 +215,53 @@ def check_inits(classes):
             continue
         if cls.__name__ in KNOWN_INITS and init is vars(cls).get("__init__"):
             continue
+        if n.startswith("custom.") and getattr(init, "__qualname__", "") in CUSTOM_BUILDER_INITS:
+            # the builder's __init__: base constructor, the decorated class's own __init__ if it has
+            # one (ours have none), then the extension step for classes with `with_extension`
+            user = [b for b in cls.__mro__ if b.__module__ == __name__ or b.__module__ == "__main__"]
+            if all("__init__" not in vars(b) for b in user):
+                continue
         raise WorldError("class %s has an __init__ the heap model does not know" % n)
+
+
+CUSTOM_BUILDER_INITS = {"_custom_object_builder.<locals>._CustomObject.__init__",
+                        "_custom_observable_builder.<locals>._CustomObservable.__init__",
+                        "_custom_extension_builder.<locals>._CustomExtension.__init__"}
+
+
+def with_ext(classes):
+    """custom classes declared with extension_name= (Model/HeapOps.v ext_step); fail closed
+    unless stix2/custom.py still does what the model says and `extensions` is an ExtensionsProperty"""
+    import inspect
+    import stix2.custom
+    from stix2 import properties as P
+    out = []
+    for n in sorted(classes):
+        cls = cls_of(n)
+        ext = getattr(cls, "with_extension", None)
+        if not ext:
+            continue
+        if not isinstance(cls._properties.get("extensions"), P.ExtensionsProperty):
+            raise WorldError("%s has with_extension but its 'extensions' is not an ExtensionsProperty" % n)
+        out.append([n, ext])
+    if out:
+        for fn in (stix2.custom._custom_object_builder, stix2.custom._custom_observable_builder):
+            src = inspect.getsource(fn)
+            if "self._inner['extensions'][ext] = class_for_type(ext, version, \"extensions\")()" not in src or \
+                    "_insert_in_property_order(self, 'extensions', {})" not in src:
+                raise WorldError("stix2/custom.py no longer adds the extension the way the heap model says")
+    return out
+
+
+def keep_in_bundle(classes):
+    """classes STIXObjectProperty.clean keeps without re-parsing (its own test, on the class)"""
+    import inspect
+    from stix2 import properties as P
+    src = inspect.getsource(P.STIXObjectProperty.clean)
+    if "stix2_classes = {'_DomainObject', '_RelationshipObject', 'MarkingDefinition'}" not in src:
+        raise WorldError("STIXObjectProperty.clean no longer keeps exactly SDO / SRO / MarkingDefinition objects")
+    keep = {"_DomainObject", "_RelationshipObject", "MarkingDefinition"}
+    return sorted(n for n in classes if any(b.__name__ in keep for b in cls_of(n).__mro__))
 
 
 def defn_classes():
@@ -225,6 +279,7 @@ def defn_classes():
 
 
 def world():
+    register_custom()
     import stix2.registry as R
     from stix2.v21.base import _Observable as Obs21
     classes, registry, det_id, defaults = {}, [], [], {}
@@ -251,7 +306,8 @@ def world():
             det_id.append(n)
     check_inits(classes)
     return {"classes": classes, "registry": registry, "det_id": sorted(det_id), "defaults": defaults,
-            "defn_classes": defn_classes()}
+            "defn_classes": defn_classes(), "with_ext": with_ext(classes), "keep_in_bundle": keep_in_bundle(classes),
+            "observables": sorted(n for n in classes if issubclass(cls_of(n), stix2.base._Observable))}
 
 
 # --------------------------------------------------------------------------
